@@ -724,7 +724,7 @@ class Client(BaseClient):
         """
         path = pathlib.PurePosixPath(path)
         need_create = []
-        while path.name and not await self.exists(path):
+        while path.name and path.name != ".." and not await self.exists(path):
             need_create.append(path)
             path = path.parent
             if not parents:
